@@ -47,6 +47,9 @@ static int choices[MAXD], nen[MAXD], still[MAXD], nch;
 static char logbuf[MAXLOG]; static int loglen;
 static int aborted, deadlock, livelock, infra;
 static int spin_count;     /* consecutive yields of the only enabled thread */
+static int last_run[MAXT];
+static long progress;      /* steps that change shared state (anything but a failed spin) */
+static long yield_stamp[MAXT];
 
 /* world state */
 static int nlibs; static char initkind[2];
@@ -60,6 +63,7 @@ int verif_tid(void) { return me ? me->id : -1; }
 void verif_event(const char *fmt, ...)
 {
     va_list ap; int n;
+    progress++;
     if (loglen > MAXLOG - 200) { infra = 1; return; }
     va_start(ap, fmt);
     n = vsnprintf(logbuf + loglen, MAXLOG - loglen - 2, fmt, ap);
@@ -75,6 +79,13 @@ static struct mtx *find_mtx(void *addr)
     for (i = 0; i < nmt; i++) if (MT[i].addr == addr) return &MT[i];
     MT[nmt].addr = addr; MT[nmt].owner = -1; MT[nmt].count = 0;
     return &MT[nmt++];
+}
+
+static int spinning(thr_t *t)
+{
+    /* a thread whose last step was a failed spin is not worth running again until some
+       other thread changed the shared state */
+    return t->yielded && progress <= yield_stamp[t->id];
 }
 
 static int enabled(thr_t *t)
@@ -98,10 +109,19 @@ static int decide(int c)
     int order[MAXT], n = 0, i, alive = 0, st = 0, k, ch;
     for (i = 0; i < NT; i++) if (!T[i].finished) alive++;
     if (!alive) { cur = -1; return -1; }
-    if (c >= 0 && enabled(&T[c]) && !T[c].yielded) { order[n++] = c; st = 1; }
-    for (i = 0; i < NT; i++) if (i != c && enabled(&T[i]) && !T[i].yielded) order[n++] = i;
+    if (c >= 0 && enabled(&T[c]) && !spinning(&T[c])) { order[n++] = c; st = 1; }
+    /* the other threads, least recently run first (so that a lock holder is never starved
+       by two threads spinning against each other) */
+    {
+        int base = n, j;
+        for (i = 0; i < NT; i++) if (i != c && enabled(&T[i]) && !spinning(&T[i])) order[n++] = i;
+        for (i = base + 1; i < n; i++)
+            for (j = i; j > base && last_run[order[j]] < last_run[order[j - 1]]; j--) {
+                int tmp = order[j]; order[j] = order[j - 1]; order[j - 1] = tmp;
+            }
+    }
     if (n == 0) {
-        for (i = 0; i < NT; i++) if (enabled(&T[i]) && T[i].yielded) order[n++] = i;
+        for (i = 0; i < NT; i++) if (enabled(&T[i]) && spinning(&T[i])) order[n++] = i;
         if (n == 0) { deadlock = 1; cur = -1; return -1; }
         if (++spin_count > 12) { livelock = 1; cur = -1; return -1; }
     }
@@ -116,7 +136,8 @@ static int decide(int c)
     }
     nen[k] = n; still[k] = st; choices[k] = ch; nch++;
     cur = order[ch];
-    for (i = 0; i < NT; i++) T[i].yielded = 0;     /* somebody moves: spinners may look again */
+    last_run[cur] = nch;
+    T[cur].yielded = 0;
     return cur;
 }
 
@@ -135,6 +156,13 @@ void verif_point(const char *label)
 {
     (void)label;
     if (!me) return;
+    progress++;
+    handoff(me);
+}
+
+static void quiet_point(void)      /* a decision that does not count as progress */
+{
+    if (!me) return;
     handoff(me);
 }
 
@@ -142,14 +170,15 @@ static void yield_point(void)
 {
     if (!me) return;
     me->yielded = 1;
+    yield_stamp[me->id] = progress;
     handoff(me);
 }
 
 /* ------------------------------------------------------------------ primitives */
 int verif_cas(void *volatile *l, void *o, void *n)
 {
-    verif_point("cas");
-    if (*l == o) { *l = n; return 1; }
+    quiet_point();
+    if (*l == o) { *l = n; progress++; return 1; }
     yield_point();                 /* failed CAS inside a spin loop: let the others move */
     return 0;
 }
@@ -181,6 +210,7 @@ int verif_mutex_lock(void *m)
     if (me) { me->wait_kind = 1; me->wait_obj = m; handoff(me); me->wait_kind = 0; }
     if (x->owner != -1 && x->owner != verif_tid()) { infra = 4; }
     x->owner = verif_tid(); x->count++;
+    progress++;
     return 0;
 }
 
@@ -205,6 +235,7 @@ static void gil_acquire(void)
     if (me) { me->wait_kind = 2; handoff(me); me->wait_kind = 0; }
     if (gil_owner != -1) infra = 5;
     gil_owner = verif_tid();
+    progress++;
 }
 static void gil_release(void)
 {
@@ -347,6 +378,7 @@ static void *thread_main(void *arg)
         }
     }
     t->finished = 1;
+    progress++;
     handoff(t);
     return NULL;
 }
@@ -412,7 +444,7 @@ int main(int argc, char **argv)
     bound = atoi(argv[3]);
     max_exec = atol(argv[4]);
     nthreads = argc - 5;
-    if (nthreads > MAXT) return 3;
+    if (nthreads > MAXT && strcmp(argv[5], "--replay") != 0) return 3;
     if (argc >= 6 && strcmp(argv[5], "--replay") == 0) {
         /* world nlibs init bound max --replay c0,c1,... prog... : print one execution's log */
         char *s = argv[6]; int n = 0; int pfd[2]; pid_t pid; char buf[MAXLOG + 9000]; int got = 0, r;
@@ -470,7 +502,12 @@ int main(int argc, char **argv)
         if (WEXITSTATUS(status) != 0) { printf("INFRA child-exit %d\n", WEXITSTATUS(status)); return 3; }
         q = buf;
         cinf = (int)strtol(q, &q, 10); cn = (int)strtol(q, &q, 10);
-        if (cinf) { printf("INFRA code %d\n", cinf); return 3; }
+        if (cinf) {
+            printf("INFRA code %d prefix=", cinf);
+            for (i = 0; i < p.n; i++) printf("%d,", p.c[i]);
+            printf("\n");
+            return 3;
+        }
         for (i = 0; i < cn; i++) {
             ch[i] = (int)strtol(q, &q, 10); q++;
             en[i] = (int)strtol(q, &q, 10); q++;
